@@ -40,6 +40,10 @@ ASSUMPTIONS = [
     "starts, function called at the event's position",
     "the reference fv.ref.stack (list + documented composition of eager/lazy/normalize/sequential/moment_matching) "
     "is trusted; it is unit-tested in /verif/tests/test_c17.py",
+    "probe classes: Tensor+Tensor and Tensor.reduce under eager/sequential/moment_matching (Tensor) and lazy/reflect "
+    "(Binary/Reduce) are fixed by the reference; what normalize builds and what a sum of two free Variables becomes "
+    "are rewrite-rule details outside C17 and are taken from a single `with K:` block (on the pinned tree they equal "
+    "the reference table); under nesting the reference decides WHICH context answers",
     "an entry that raises although the reference predicts a push (or vice versa) is accepted provided the stack is "
     "exactly as the reference says afterwards: the overflow threshold itself is not part of the property",
     "canonicalisation by stack contents is tested, not assumed, by phase B",
@@ -178,7 +182,36 @@ def _setup(seed=0):
         G.lazy_sub = Subs(G.bomb, (("z", G.one),))
     finally:
         G.STACK[:] = [fi.reflect, fi.eager]
+    # calibration of the entries of the class table that are not C17's business (see ref.calibrated)
+    seen, sub, fwd = {}, {}, {}
+    for k in ref.TOTALS:
+        G.STACK.append(G.OBJ[k])
+        try:
+            seen[k] = dict(zip(ref.PROBES[:3], [_label(f) for f in G.PROBE_FNS[:3]]))
+            for table, call in ((sub, _call_subst), (fwd, _call_tapefwd)):
+                try:
+                    call()
+                    table[k] = False
+                except Exception:
+                    table[k] = True
+        finally:
+            G.STACK[:] = [fi.reflect, fi.eager]
+    G.CAL, G.cal_bad = ref.calibrated(seen)
+    G.CAL_SUBST, G.CAL_FWD = sub, fwd
+    if not sub["eager"]:
+        G.cal_bad.append(("eager", "subst", "raise", "return"))
+    G.cal_diff = sum(G.CAL[k][p] != ref.CLASSES[k][p] for k in G.CAL for p in G.CAL[k]) + sum(
+        t[k] != ref.SUBST_RAISES[k] for t in (sub, fwd) for k in t
+    )
     G.ready = True
+
+
+def _call_subst():
+    return G.bomb(z=G.one)
+
+
+def _call_tapefwd():
+    return G.forward_backward(G.ops.add, G.ops.mul, G.lazy_sub)
 
 
 def worker_init():
@@ -507,7 +540,7 @@ class Exec:
 
     def do_probe(self):
         top = self.model.top
-        exp = ref.predict(top)
+        exp = ref.predict(top, G.CAL)
         act = tuple(_label(f) for f in G.PROBE_FNS)
         self.check_stack("probe-")
         if act != exp:
@@ -528,13 +561,13 @@ class Exec:
         raised = None
         try:
             if kind == "subst":
-                G.bomb(z=G.one)
+                _call_subst()
             else:
-                G.forward_backward(G.ops.add, G.ops.mul, G.lazy_sub)
+                _call_tapefwd()
         except Exception as ex:
             raised = ex
         self.check_stack("leak-", raised=type(raised).__name__ if raised is not None else None)
-        exp = ref.subst_raises(top) if kind == "subst" else ref.tapefwd_raises(top)
+        exp = ref.subst_raises(top, G.CAL_SUBST) if kind == "subst" else ref.tapefwd_raises(top, G.CAL_FWD)
         if (raised is not None) != exp:
             self.fail(
                 "outcome",
@@ -568,6 +601,18 @@ def run(events, record=False):
     try:
         if not G.base_ok:
             x.fail("import", "after `import funsor` _STACK is %r, expected [reflect, eager]" % (G.base_seen,))
+        if G.cal_bad and not events:
+            k, p, want, got = G.cal_bad[0]
+            x.fail(
+                "probe-class",
+                "inside a single `with %s:` block the probe %r gave %s; the documented semantics of %s gives %s"
+                % (k, p, got, k, want),
+                site="interpret",
+                probe=p,
+                expected=want,
+                actual=got,
+                semantics=k,
+            )
         x.prepare()
         x.body(0, 0)
         x.cur = (len(events), ("end",))
@@ -699,7 +744,8 @@ with reflect:
 def check(where, expected):
     actual = [repr(s) for s in interpreter._STACK]
     print(where, "stack:", actual)
-    assert actual == expected, "%s: expected stack %s" % (where, expected)
+    if actual != expected:  # SystemExit: not swallowed by the except clauses below
+        raise SystemExit("VIOLATED at %s: expected stack %s" % (where, expected))
 
 def probe(where, expected):
     actual = []
@@ -707,7 +753,8 @@ def probe(where, expected):
         r = f()
         actual.append("SENT" if r is SENT else type(r).__name__.split("[")[0])
     print(where, "probes:", actual)
-    assert actual == expected, "%s: expected probe classes %s" % (where, expected)
+    if actual != expected:
+        raise SystemExit("VIOLATED at %s: expected probe classes %s" % (where, expected))
 
 assert interpreter._STACK[0] is reflect and interpreter._STACK[1] is eager and len(interpreter._STACK) == 2
 '''
@@ -786,7 +833,16 @@ def snippet(events):
                     inner.append(pad + "rest_%d()" % pos)
                 lines = head + inner
                 if tgt is not None and tgt == level:
-                    lines = [pad + "try:"] + ["    " + ln for ln in lines] + [pad + "except (Boom, RuntimeError, AssertionError):", pad + "    pass"]
+                    lines = (
+                        [pad + "try:"]
+                        + ["    " + ln for ln in lines]
+                        + [
+                            pad + "except (Boom, RuntimeError, AssertionError):",
+                            pad + "    pass",
+                            pad + "else:",
+                            pad + "    raise SystemExit('VIOLATED: the exception raised inside the block did not propagate')",
+                        ]
+                    )
                     tgt = None
                 out.extend(lines)
                 if tgt is not None:
@@ -1097,9 +1153,14 @@ def _canon_violation(report, what, message, events=()):
 def explore(tier, seed, report):
     _setup(seed)
     b = bounds(tier)
+    report.add(outcome(run(()), (), "A"))  # the empty history: base stack after import, calibration sanity
     if not G.base_ok:
-        report.add(outcome(run(()), (), "A"))
         return
+    if G.cal_diff:
+        report.notes.append(
+            "%d entries of the reference class table outside its documented core were re-calibrated under a single "
+            "with-block" % G.cal_diff
+        )
     L = b["unmerged_length"]
     ks = tuple(b["unmerged_internal_k"])
     pool = _pool()
@@ -1127,7 +1188,13 @@ def explore(tier, seed, report):
             u.differ += pay["differ"]
             u.examples.extend(pay["examples"])
             u_keys |= pay["table"]
-        for c in m["conflicts"][:3]:
+        crosscheck = report.status["violation"] == 0
+        if not crosscheck:
+            report.notes.append(
+                "phase B comparison of merged and un-merged searches not evaluated: executions already violate the "
+                "stack discipline (a failed execution is not expanded, so the two searches are not comparable)"
+            )
+        for c in m["conflicts"][:3] if crosscheck else ():
             _canon_violation(
                 report,
                 "nondeterministic-successor",
@@ -1135,7 +1202,7 @@ def explore(tier, seed, report):
                 % (c[0][0], list(c[0][1]), c[1], c[2]),
                 c[3],
             )
-        for what, before, e, want, got, seq in u.examples[:4]:
+        for what, before, e, want, got, seq in u.examples[:4] if crosscheck else ():
             _canon_violation(
                 report,
                 what,
@@ -1147,7 +1214,7 @@ def explore(tier, seed, report):
         u_states = {BASE_RC} | u.states
         # the un-merged sequences stop at length L: they cannot take events from the states first reached by
         # their last event, so compare reachability, and transitions from states reached within L-1 events
-        if m_states != u_states:
+        if crosscheck and m_states != u_states:
             _canon_violation(
                 report,
                 "reachable-sets-differ",
